@@ -4,7 +4,7 @@
                        (pos.id.shift, sorted) and the abstraction `abs` of the state
     kv-l <history>  -> per op: cell layout, rows, ranges, current placement  (sub-correspondence C06.layout)
   <history> = variant W maxSeq capacity maxBatch cachePad batchPad hasShift permV maskF16 maxNodes nops op*
-  op = F n (seq pos id)*n | C src dst len | R seq begin end | Q seq pos
+  op = F n (seq pos id)*n | C src dst len | R seq begin end | Q seq pos | E k idx*k | V n (seq pos id)*n (reserve pass)
 -/
 import OllamaVerif.Model.Causal
 import Oracle.Util
@@ -17,6 +17,7 @@ inductive Op where
   | rm (seq : Nat) (b e : Int)
   | q (seq : Nat) (pos : Int)
   | sc (ex : List Nat)
+  | rsv (toks : List (Tok × Nat))
 
 def pOp : TP Op := do
   let k ← tok
@@ -31,6 +32,12 @@ def pOp : TP Op := do
   | "R" => return .rm (← nat) (← int) (← int)
   | "Q" => return .q (← nat) (← int)
   | "E" => return .sc (← listOf nat)
+  | "V" =>
+    let n ← nat
+    let toks ← rep n (do
+      let s ← nat; let p ← int; let id ← nat
+      pure ((⟨s, p⟩ : Tok), id))
+    return .rsv toks
   | _ => failure
 
 def pWindow : TP (Option Int) := do
@@ -123,9 +130,15 @@ def stepOp (seqIds : List Nat) (a0 : Acc) (op : Op) : Acc :=
       { a with c := c1, xs := s!"E{showExposed c1};abs={showKeys (absKeys c1)}" :: a.xs, ls := showLayout c1 seqIds true :: a.ls }
     else
       { a with c := c1, xs := s!"E:stale;abs={showKeys (absKeys c1)}" :: a.xs, ls := showLayout c1 seqIds false :: a.ls }
+  | .rsv toks =>
+    -- reserve pass: observed through Get only when layer tensors exist
+    let c1 := startReserve a.c (toks.map (·.1))
+    let x := if c1.hasLayers then showExposed c1 else ":nolayers"
+    { a with c := c1, xs := s!"V{x};abs={showKeys (absKeys c1)}" :: a.xs, ls := showLayout c1 seqIds true :: a.ls }
 
 def opSeqs : Op → List Nat
   | .fwd toks => toks.map (·.1.seq)
+  | .rsv toks => toks.map (·.1.seq)
   | .cp s d _ => [s, d]
   | .rm s _ _ => [s]
   | .q s _ => [s]
@@ -186,6 +199,9 @@ def wStepOp (seqIds : List Nat) (a0 : WAcc) (op : Op) : WAcc :=
     let cs1 := wSetCausal a.cs ex
     if a.cur then fin cs1 "E" (cs1.map showExposed) true
     else fin cs1 "E:stale" (cs1.map (fun _ => "")) false
+  | .rsv toks =>
+    let cs1 := wStartReserve a.cs (toks.map (·.1))
+    fin cs1 "V" (cs1.map (fun c => if c.hasLayers then showExposed c else ":nolayers")) true
 
 def pWHistory : TP (List Cache × List Op) := do
   let order ← nat
